@@ -47,6 +47,30 @@ class Obligation:
         return d
 
 
+def merge_reports(a, b):
+    a.obligations.extend(b.obligations)
+    a.paths += b.paths
+    a.aborted += b.aborted
+    a.bounded_out += b.bounded_out
+    for u in b.undecided:
+        if u not in a.undecided:
+            a.undecided.append(u)
+    a.vacuous = a.vacuous or b.vacuous
+    a.inlined |= b.inlined
+    a.modular_calls |= b.modular_calls
+    a.bounds |= b.bounds
+    a.models_used |= b.models_used
+    a.wall_s += b.wall_s
+    if b.canary is True or a.canary is None:
+        a.canary = b.canary if b.canary is not None else a.canary
+    if a.canary is not True and b.canary is True:
+        a.canary = True
+    a.sha256 = a.sha256 or b.sha256
+    a.n_statements = a.n_statements or b.n_statements
+    a.dropped = a.dropped or b.dropped
+    return a
+
+
 class FunctionReport:
     def __init__(self, qualname):
         self.qualname = qualname
@@ -151,6 +175,12 @@ class Verifier:
 
     # ------------------------------------------------------------------
     def verify(self, qualname, only_props=None):
+        rep, left = self.verify_partial(qualname, [[]], None)
+        return rep
+
+    def verify_partial(self, qualname, prefixes, budget):
+        """Explore the subtrees rooted at `prefixes`, at most `budget` paths;
+        returns (partial report, unexplored prefixes)."""
         C = spec.REGISTRY[qualname]
         self.current = qualname
         rep = FunctionReport(qualname)
@@ -158,12 +188,16 @@ class Verifier:
         fi = self.P.functions.get(qualname)
         if fi is None:
             rep.undecided.append('contract target %s not found in source' % qualname)
-            return rep
+            return rep, []
         rep.sha256, rep.n_statements, rep.dropped = fi.sha256, fi.n_statements, list(fi.dropped)
-        work = [[]]
-        first = True
+        work = [list(p) for p in prefixes]
+        first = (prefixes == [[]])
+        done = 0
         while work:
+            if budget is not None and done >= budget:
+                break
             forced = work.pop()
+            done += 1
             if rep.paths + rep.aborted > self.max_paths:
                 rep.undecided.append('path budget exceeded (%d)' % self.max_paths)
                 break
@@ -188,7 +222,7 @@ class Verifier:
         rep.wall_s = time.time() - t0
         from . import builtins_model
         rep.models_used = set(builtins_model.USED_MODELS)
-        return rep
+        return rep, work
 
     def run_path(self, I, fi, C, rep, first):
         mod = fi.module
@@ -212,6 +246,7 @@ class Verifier:
         # snapshot for old()
         I.old_heap = I.heap.snapshot()
         I.old_locals = dict(sf.locals)
+        I.old_ghost = {'g_enc': I.g_enc, 'g_dec': I.g_dec}
         inputs = dict(sf.locals)
         outcome = None
         try:
@@ -355,7 +390,14 @@ class Verifier:
         s.add(z3.Not(g_qf))
         r = s.check()
         first_model = None
-        if r != z3.unsat and I.deferred:
+        if r == z3.sat and I.deferred:
+            # every deferred invariant is index-local (its body reads the maps only at
+            # the bound index) and is instantiated at every index term of the query,
+            # so a model of the instantiated query extends to a model of the
+            # quantified one (set the domain false at all other indices)
+            first_model = s.model()
+            ob.note = 'refuted on the index-instantiated invariant'
+        elif r != z3.unsat and I.deferred:
             # fallback: the full quantified assumptions
             if r == z3.sat:
                 first_model = s.model()
